@@ -135,13 +135,13 @@ RULE_PROP = {"cow": "C17", "ht-after-meta": "C17", "prune-after-meta": "C17", "w
              "recover-metasync": "C04", "recover-htsync": "C04"}
 
 PLANS = {
-    "C03": dict(quick=dict(behs=16, depth=20, mode="crash", budget=3, nested=2, stride=1, fs=[1, 3], mc_crashes=2, mutants=False),
-                thorough=dict(behs=150, depth=28, mode="crash", budget=6, nested=4, stride=1, fs=[1, 3, 25], mc_crashes=3, mutants=True)),
-    "C04": dict(quick=dict(behs=8, depth=20, mode="both", budget=6, nested=2, stride=1, fs=[1, 3], mc_crashes=2, mutants=True),
+    "C03": dict(quick=dict(behs=8, depth=20, mode="crash", budget=2, nested=1, stride=1, fs=[1, 3, 25], mc_crashes=2, mutants=False, decode=True, max_ops=4),
+                thorough=dict(behs=150, depth=28, mode="crash", budget=6, nested=4, stride=1, fs=[1, 3, 25], mc_crashes=3, mutants=True, decode=True)),
+    "C04": dict(quick=dict(behs=8, depth=20, mode="both", budget=6, nested=2, stride=1, fs=[1, 3], mc_crashes=2, mutants=True, max_ops=4),
                 thorough=dict(behs=120, depth=28, mode="both", budget=24, nested=4, stride=1, fs=[1, 3, 25], mc_crashes=3, mutants=True)),
     "C17": dict(quick=dict(behs=60, depth=24, mode="none", budget=0, nested=0, stride=1, fs=[1, 3, 25, 60], mc_crashes=1, mutants=True),
                 thorough=dict(behs=600, depth=30, mode="none", budget=0, nested=0, stride=1, fs=[1, 3, 25, 60, 400], mc_crashes=2, mutants=True)),
-    "C14": dict(quick=dict(behs=8, depth=16, faults=160, fs=[1, 3], mc_crashes=1, mutants=False),
+    "C14": dict(quick=dict(behs=6, depth=14, faults=90, fs=[1, 3], mc_crashes=1, mutants=False),
                 thorough=dict(behs=80, depth=24, faults=8000, fs=[1, 3, 25], mc_crashes=2, mutants=False)),
 }
 
@@ -164,8 +164,8 @@ def gen_scripts(pid, plan, seed, rng, with_overlay=True):
         consts = api.gen_constants(maxlog=maxlog)
         ckey = "ml%d_rb1" % maxlog
         consts_by_class[ckey] = consts
-        behs = api.gen_behaviours(consts, max(8, plan["behs"]), plan["depth"], seed * 77 + maxlog, True, "%s_%d" % (pid, maxlog))
-        kept = [b for b in behs if api.interesting(b, "commit")][: (plan["behs"] + 1) // 2]
+        behs = api.gen_behaviours(consts, max(300, 10 * plan["behs"]), plan["depth"], seed * 77 + maxlog, True, "%s_%d" % (pid, maxlog))
+        kept = sorted([b for b in behs if api.interesting(b, "commit")], key=lambda b: -api.score(b, "sync"))[: (plan["behs"] + 1) // 2]
         for b in kept:
             store = dict(rng.choice(CRASH_STORE_CFGS))
             store.update(rollback=True, max_rollback_log_len=maxlog, seed=rng.randrange(1 << 30),
@@ -176,6 +176,10 @@ def gen_scripts(pid, plan, seed, rng, with_overlay=True):
             run += 1
             sc = api.make_script(run, b, store, conc)
             sc["crash_steps"] = [i for i, s in enumerate(b) if s["a"] in SYNC_OPS and s.get("res", "Ok") == "Ok"]
+            if plan.get("max_ops") and len(sc["crash_steps"]) > plan["max_ops"]:
+                # quick tier: a random subset of the operations, always including the last ones (deepest history)
+                keep = set(sc["crash_steps"][-2:]) | set(rng.sample(sc["crash_steps"][:-2], plan["max_ops"] - 2))
+                sc["crash_steps"] = sorted(keep)
             scripts.append(sc)
             classes[run] = ckey
     return scripts, classes, consts_by_class
@@ -183,6 +187,7 @@ def gen_scripts(pid, plan, seed, rng, with_overlay=True):
 
 def run_plan(pid, tier, seed):
     t0 = time.time()
+    tier_name = tier
     plan = PLANS[pid][tier]
     rng = random.Random(seed * 15485863 + int(pid[1:]))
     violations, known, notes = [], [], []
@@ -217,6 +222,8 @@ def run_plan(pid, tier, seed):
     scripts, classes, consts_by_class = gen_scripts(pid, plan, seed, rng)
     for sc in scripts:
         sc.update(crash_mode=plan["mode"], budget=plan["budget"], nested=plan["nested"], stride=plan["stride"])
+        if plan.get("decode"):
+            sc["decode"] = True     # every recovered image is also decoded by the independent decoder (C16)
     C.log("[%s] %d scripts, recording I/O of every sync operation (mode=%s)" % (pid, len(scripts), plan["mode"]))
     runs, events, hangs = run_crash(scripts, pid)
     for h in hangs:
@@ -270,6 +277,7 @@ def run_plan(pid, tier, seed):
 
 def run_faults(pid, tier, seed, plan, rng, t0, states, trans, mcs, violations):
     known, notes = [], []
+    os.environ["NVH_WATCHDOG"] = "25"
     scripts, classes, consts_by_class = gen_scripts(pid, plan, seed, rng)
     for sc in scripts:
         sc.update(crash_mode="none", budget=0, nested=0, stride=1)
@@ -296,8 +304,24 @@ def run_faults(pid, tier, seed, plan, rng, t0, states, trans, mcs, violations):
         sc["fault"] = dict(step=i, k=k, errno=rng.choice([5, 28]), persistent=rng.random() < 0.3)
         fscripts.append(sc)
         fclasses[frun] = classes[run]
-    C.log("[%s] %d sync operations with %d failable I/O operations; injecting %d faults" %
-          (pid, len(ops), sum(n for _, _, n in ops), len(fscripts)))
+    # bucket exhaustion: tiny hash tables and page-hungry batches; the first failing commit becomes a Fault record
+    nex = 10 if tier == "quick" else 200
+    for j in range(nex):
+        src = scripts[j % len(scripts)]
+        sc = json.loads(json.dumps(src))
+        frun += 1
+        sc["run"] = frun
+        sc["crash_steps"] = []
+        sc["exhaust"] = True
+        sc["cfg"]["hashtable_buckets"] = rng.choice([16, 32, 64, 128])
+        sc["conc"]["f"] = rng.choice([25, 40, 60, 100])
+        sc["conc"]["emb"] = rng.choice(["scatter", "spread(6)", "spread(7):z", "top"])
+        sc["conc"]["vtable"] = api.VTABLES["tiny"]
+        sc["lenient"] = False
+        fscripts.append(sc)
+        fclasses[frun] = classes[src["run"]]
+    C.log("[%s] %d sync operations with %d failable I/O operations; injecting %d faults (+%d bucket-exhaustion runs)" %
+          (pid, len(ops), sum(n for _, _, n in ops), len(fscripts) - nex, nex))
     runs, _, hangs2 = run_crash(fscripts, pid + "p2")
     for h in hangs + hangs2:
         fid = findings.match_hang(pid, h)
@@ -315,7 +339,9 @@ def run_faults(pid, tier, seed, plan, rng, t0, states, trans, mcs, violations):
         rejections.extend(rej)
     for rej in rejections:
         sc = fs_by_run[rej["run"]]
-        prop = api.attribute(rej, sc["steps"])
+        # these runs exist to make a sync fail (injected I/O error / bucket exhaustion): whatever the store
+        # does then that NomtApi does not allow (Ok, panic, no poison, broken reopen) contradicts C14
+        prop = pid
         rec = rej["record"]
         fid = findings.match_generic("fault", prop, dict(poisoned=rec.get("poisoned"), next=rec.get("next"),
                                                          isErr=rec.get("isErr"), injFile=rec.get("injFile"), injKind=rec.get("injKind"),
@@ -337,7 +363,7 @@ def run_faults(pid, tier, seed, plan, rng, t0, states, trans, mcs, violations):
     ninj = sum(1 for rs in runs.values() for r in rs if r.get("ev") == "Fault" and r.get("injected"))
     return finish(pid, tier, seed, t0, states, trans, mcs, {}, violations, known, notes, evaluations=nf, accepted=accepted_total,
                   scripts=fscripts, extra=dict(fault_records=nf, faults_hit=ninj),
-                  distinct=len({(json.dumps(s["steps"]), json.dumps(s["fault"])) for s in fscripts}), level="fault_enumeration")
+                  distinct=len({(json.dumps(s["steps"]), json.dumps(s.get("fault")), s.get("exhaust"), s["cfg"].get("hashtable_buckets"), s["conc"]["f"]) for s in fscripts}), level="fault_enumeration")
 
 
 def finish(pid, tier, seed, t0, states, trans, mcs, mutant_res, violations, known, notes, *, evaluations, accepted, scripts,
